@@ -61,11 +61,14 @@ def c19_normalize_fraction_times_sum(c, k):
 
 @matcher('c19_normalize_splits_root_of_product')
 def c19_normalize_splits_root_of_product(c, k):
-    """poly.normalize turns the square root of a product / quotient with a negative constant factor (sqrt(-4 * x * a),
-    sqrt(x / a / -(1/2))) into roots of the factors and puts the sign on whichever factor comes first -- here a, which the
-    conditions make positive, so the result contains sqrt(-a) and has no real value where the input has one.  Only results
-    containing sqrt(-a) (with the harness condition a > 0) are covered."""
-    return c.get('kind') == 'step-loses-definedness:normalize' and 'sqrt(-a)' in str(c.get('after', ''))
+    """poly.normalize distributes a square root over the factors of a product or quotient without knowing their signs
+    (sqrt(-4 * x * a) -> 2 * sqrt(x) * sqrt(-a), sqrt((a - 1) * x) -> sqrt(x) * sqrt(a - 1), sqrt((x / x) ^ (-1)) -> sqrt(x) / sqrt(x)):
+    the result has no real value where two factors are negative although the input has one.  Covered: loss of definedness by
+    normalisation in which the result contains more square roots than the input (a root was split)."""
+    if c.get('kind') != 'step-loses-definedness:normalize':
+        return False
+    roots = lambda t: t.count('sqrt(') + t.count('^ (1/2)') + t.count('^ (-1/2)')
+    return roots(str(c.get('after', ''))) > roots(str(c.get('before', '')))
 
 
 @matcher('c19_normalize_terms_reordered')
